@@ -173,10 +173,11 @@ def RSYM(**kw):
     return Env("sym", **kw)
 
 
-def body_runner_route(E, kind, which, to_df, base):
-    """partial reap through a Runner (Dataset / DataFrame form), incl. bool and str results"""
+def body_runner_route(E, kind, which, to_df, base, sampler=False):
+    """partial reap through a Runner (Dataset / DataFrame form), incl. bool and str results; sampler: through a
+    Sampler crop (three drawn samples in two batches): one row per sown sample, unfinished ones missing"""
     from .xrkit import rows_of
-    from xyzpy.gen.farming import Runner
+    from xyzpy.gen.farming import Runner, Sampler
 
     kind = concretize(kind, 0, 3)
     which = concretize(which, 1, 2)      # the batch that IS finished
@@ -188,6 +189,25 @@ def body_runner_route(E, kind, which, to_df, base):
 
     with E2() as env:
         r = Runner(fn, "x")
+        if cbool(sampler):
+            from .C15 import install_choice
+
+            install_choice(env, [0, 1, 2, 0, 1, 2])
+            s_ = Sampler(r, data_name=env.parent + "/smp.pkl", default_combos={"a": [10, 11, 12]})
+            crop = s_.Crop(name="t", parent_dir=env.parent, batchsize=2)
+            crop.sow_samples(3, verbosity=0)
+            cp.grow(which, crop=crop, verbosity=0)
+            rows = rows_of(env, crop.reap(allow_incomplete=True))
+            if len(rows) != 3:
+                return False                       # one row per sown sample, finished or not
+            done_rows = {1: [0, 1], 2: [2]}[which]
+            for i, row in enumerate(rows):
+                if i in done_rows:
+                    if row["x"] != fn(row["a"]):
+                        return False
+                elif not (row["x"] is None or is_nan(row["x"])):
+                    return False
+            return env.exists(crop_dir(env))
         crop = r.Crop(name="t", parent_dir=env.parent, batchsize=2)
         crop.sow_combos({"a": [10, 11, 12]}, verbosity=0)
         cp.grow(which, crop=crop, verbosity=0)
@@ -238,8 +258,9 @@ CONDS = (
                   "not f4 and not f5 and not f6", _NOJ], fixed=dict(api=0), timeout=400,
                  bounds="N in 3..4, batch parameter 2..3, result kinds number / (scalar, list) tuple / bool / str / int ndarray, "
                         "clean_up None/False/True, all subsets")]
-    + [make_cond(_G, "runner_route", body_runner_route, "kind:int which:int to_df:bool base:int",
-                 ["(kind == 0 or kind == 2 or kind == 3) and 1 <= which <= 2", "not to_df or kind != 3"], timeout=300,
+    + [make_cond(_G, "runner_route", body_runner_route, "kind:int which:int to_df:bool base:int sampler:bool",
+                 ["(kind == 0 or kind == 2 or kind == 3) and 1 <= which <= 2", "not to_df or kind != 3",
+                  "not sampler or (not to_df and kind != 3)"], timeout=300,
                  bounds="partial reap of a Runner crop (2 batches, either one finished) to a Dataset and to a "
                         "DataFrame, number / bool / str results: finished points exact, others missing, crop kept")]
     + [make_cond(_G, "shuffled", body_partial, _SIG,
